@@ -72,6 +72,8 @@ def build_roots(prog):
                         roots.append((fi, "protocol"))
                 elif name in ("flat_regions", "calculate"):
                     pass
+                elif name.startswith("_") and not name.startswith("__"):
+                    pass  # private helpers: reached (inlined) from the protocol methods above, which own the regions they pass on
                 else:
                     roots.append((fi, "agg"))
     ii = prog.cls("iindexes", "iindex")
